@@ -231,10 +231,56 @@ def build_config(s: dict):
 
 
 def gen_results(rng: random.Random) -> dict:
+    if rng.random() < 0.3:
+        # filled by hand through the public Observable.__call__: several stages,
+        # each with a fresh observable instance; tags may repeat across stages
+        n_st = rng.randint(1, 3)
+        t0 = 0.0
+        stages = []
+        for k in range(n_st):
+            ts = sorted({round(t0 + rng.uniform(0.01, 0.3), 3) for _ in range(rng.randint(1, 3))})
+            t0 = ts[-1]
+            stages.append({"suffix": G.pick(rng, [None, None, "a", "b"]), "value": G.pick(rng, [1.0, -2.5, [0.25, 0.75], {"10": 3, "01": 7}]), "times": ts})
+        return {"manual": True, "stages": stages, "n": rng.randint(1, 2)}
     return {"omega": round(rng.uniform(2, 9), 3), "duration": rng.randint(40, 200), "times": G.pick(rng, [[1.0], [0.0, 0.5, 1.0]]), "obs": rng.sample(["BitStrings", "Occupation", "CorrelationMatrix", "Energy", "EnergyVariance"], rng.randint(1, 4)), "n": rng.randint(1, 2), "np_seed": rng.getrandbits(31)}
 
 
+def _build_results_manual(s: dict):
+    import pulser.backend as pb
+    from pulser.backend.operator import OperatorRepr
+    from pulser.backend.results import Results
+    from pulser.backend.state import StateRepr
+
+    class Probe(pb.Observable):
+        def __init__(self, value, **kw):
+            super().__init__(**kw)
+            self.value = value
+
+        @property
+        def _base_tag(self):
+            return "probe"
+
+        def apply(self, *, config, state, hamiltonian):
+            v = self.value
+            return Counter(v) if isinstance(v, dict) else (np.array(v) if isinstance(v, list) else v)
+
+    n = s["n"]
+    state = StateRepr.from_state_amplitudes(eigenstates=("r", "g"), amplitudes={"g" * n: 1.0})
+    ham = OperatorRepr.from_operator_repr(eigenstates=("r", "g"), n_qudits=n, operations=[(1.0, [])])
+    res = Results(atom_order=tuple(f"q{k}" for k in range(n)), total_duration=1000)
+    for st in s["stages"]:
+        ob = Probe(st["value"], evaluation_times=st["times"], tag_suffix=st["suffix"])
+        cfg = pb.EmulationConfig(observables=(ob,), default_evaluation_times="Full")
+        for t in st["times"]:
+            ob(cfg, t, state, ham, res)
+    return res
+
+
 def build_results(s: dict):
+    if s.get("manual"):
+        with warnings.catch_warnings():
+            warnings.simplefilter("ignore")
+            return _build_results_manual(s)
     import pulser.backend as pb
     from pulser import Pulse
     from pulser_simulation import QutipBackendV2, QutipConfig
@@ -395,7 +441,19 @@ def equal(kind: str, a, b) -> tuple[bool, str]:
                             return False, f"values of {t} differ"
                     elif not np.allclose(np.asarray(x, dtype=complex), np.asarray(y, dtype=complex), rtol=0, atol=1e-12):
                         return False, f"values of {t} differ"
-            return (a.atom_order == b.atom_order and a.total_duration == b.total_duration), "atom order / duration"
+            if not (a.atom_order == b.atom_order and a.total_duration == b.total_duration):
+                return False, "atom order / duration"
+            # every field: results and times of EVERY observable instance (a tag
+            # only names the latest instance that stored under it)
+            if {str(k) for k in a._results} != {str(k) for k in b._results} or {str(k) for k in a._times} != {str(k) for k in b._times}:
+                return False, f"stored observable instances differ: {len(a._results)} vs {len(b._results)}"
+            if {t: str(u) for t, u in a._tagmap.items()} != {t: str(u) for t, u in b._tagmap.items()}:
+                return False, "tag map differs"
+            bt = {str(k): v for k, v in b._times.items()}
+            for k, v in a._times.items():
+                if list(v) != list(bt[str(k)]):
+                    return False, f"times of instance {k} differ"
+            return True, ""
         if kind == "config":
             fa = json.loads(a.to_abstract_repr())
             fb = json.loads(b.to_abstract_repr())
